@@ -44,6 +44,8 @@ type Cmd struct {
 	After    Beh
 	LongDesc string
 	Hidden   bool
+	// InAction, when set, is called from inside the Action (after the snapshot): nested or cooperating applications
+	InAction func()
 	// Policy, when set, is assigned to the command's ErrorHandling at the start of its own initializer
 	// (sub-commands declared afterwards inherit it)
 	Policy *flag.ErrorHandling
@@ -289,6 +291,9 @@ func buildApp(a *App, o *Obs, setEnv *[]string) (*cli.Cli, map[int]*recs, func(c
 				if snapshot {
 					o.Ran++
 					o.snapshot(a, all)
+					if t.InAction != nil {
+						t.InAction()
+					}
 				}
 				switch b.Kind {
 				case BehPanic:
